@@ -1085,12 +1085,21 @@ impl Probe {
         host by waiting one second, and then begins probing for this record
         again.
         */
-        let min_len = self.records.len().min(incoming.len());
+        // RFC 6762 section 8.2.1: both sets are sorted (class, type, then rdata)
+        // before they are compared pairwise. `self.records` is only kept sorted by
+        // class and type, and the other host may list its records in any order;
+        // without sorting both hosts can reach the same verdict.
+        let mut mine: Vec<&DnsRecordBox> = self.records.iter().collect();
+        mine.sort_by(|a, b| a.compare(b.as_ref()));
+        let mut incoming = incoming;
+        incoming.sort_by(|a, b| a.compare(b.as_ref()));
+
+        let min_len = mine.len().min(incoming.len());
 
         // Compare elements up to the length of the shorter vector
         let mut cmp_result = cmp::Ordering::Equal;
         for (i, incoming_record) in incoming.iter().enumerate().take(min_len) {
-            match self.records[i].compare(incoming_record.as_ref()) {
+            match mine[i].compare(incoming_record.as_ref()) {
                 cmp::Ordering::Equal => continue,
                 other => {
                     cmp_result = other;
